@@ -30,6 +30,8 @@ impl MatcherControl {
     }
 
     pub fn kill(self) {
+        #[cfg(feature = "verif")]
+        crate::verif::sched::log("kill".to_string());
         self.stopped.store(true, Ordering::Relaxed);
         let _ = self.thread_matcher.join();
     }
@@ -82,9 +84,19 @@ impl Matcher {
         let matched_items = Arc::new(SpinLock::new(Vec::new()));
         let matched_items_clone = matched_items.clone();
 
+        #[cfg(feature = "verif")]
+        let verif_id = crate::verif::sched::next_id();
+        #[cfg(feature = "verif")]
+        crate::verif::sched::log(format!("spawn id={}", verif_id));
         let thread_matcher = thread::spawn(move || {
+            #[cfg(feature = "verif")]
+            crate::verif::sched::point("mt.before_take");
+            #[cfg(feature = "verif")]
+            crate::verif::sched::log(format!("tTake id={}", verif_id));
             let num_taken = item_pool.num_taken();
             let items = item_pool.take();
+            #[cfg(feature = "verif")]
+            crate::verif::sched::log(format!("t.taken id={} start={} n={}", verif_id, num_taken, items.len()));
 
             // 1. use rayon for parallel
             // 2. return Err to skip iteration
@@ -112,14 +124,24 @@ impl Matcher {
                 })
                 .collect();
 
+            #[cfg(feature = "verif")]
+            let verif_ok = result.is_ok();
             if let Ok(items) = result {
                 let mut pool = matched_items.lock();
                 *pool = items;
                 trace!("matcher stop, total matched: {}", pool.len());
             }
 
+            #[cfg(feature = "verif")]
+            crate::verif::sched::log(format!("tPublish id={} ok={}", verif_id, verif_ok));
             callback(matched_items.clone());
+            #[cfg(feature = "verif")]
+            crate::verif::sched::point("mt.before_stop");
+            #[cfg(feature = "verif")]
+            crate::verif::sched::log(format!("tStop id={}", verif_id));
             stopped.store(true, Ordering::Relaxed);
+            #[cfg(feature = "verif")]
+            crate::verif::sched::point("mt.after_stop");
         });
 
         MatcherControl {
